@@ -59,6 +59,8 @@ pub enum WOp {
     Write { n: u32, chunk: u32 },
     Flush,
     Shutdown,
+    /// shutdown(), giving up after `ms` (an application-level timeout; the half is kept)
+    ShutdownFor(u32),
     Sleep(u32),
     /// wait until this endpoint's reader script has finished (application-level ordering)
     WaitOwnReader,
@@ -75,6 +77,8 @@ pub enum ROp {
     Read { n: u32, buf: u32 },
     /// read until EOF or error
     ReadToEnd { buf: u32 },
+    /// read until EOF or error, giving up after `ms` (an application-level timeout)
+    ReadToEndFor { buf: u32, ms: u32 },
     Sleep(u32),
     Drop,
 }
@@ -97,6 +101,8 @@ pub enum AppEv {
     ReadErr(String),
     ReaderDropped,
     ScriptDone,
+    /// an application-level timeout fired
+    GaveUp,
 }
 
 #[derive(Clone, Debug)]
@@ -197,9 +203,13 @@ pub async fn run_writer(mut w: UtpStreamWriteHalf, mut ops: tokio::sync::mpsc::U
                     }
                 }
             }
-            WOp::Shutdown => {
+            WOp::Shutdown | WOp::ShutdownFor(_) => {
                 let ts = now_us(t0);
-                let sr = tokio::select! { biased; _ = abort.notified() => { dropped = true; break 'outer; } x = w.shutdown() => x };
+                let patience = match op { WOp::ShutdownFor(ms) => Some(std::time::Duration::from_millis(ms as u64)), _ => None };
+                let sr = tokio::select! { biased;
+                    _ = abort.notified() => { dropped = true; break 'outer; }
+                    _ = async { match patience { Some(d) => tokio::time::sleep(d).await, None => std::future::pending().await } } => { push(&log, ts, AppEv::GaveUp); continue 'outer; }
+                    x = w.shutdown() => x };
                 match sr {
                     Ok(()) => {
                         let t = now_us(t0);
@@ -260,9 +270,14 @@ pub async fn run_reader(mut r: UtpStreamReadHalf, mut ops: tokio::sync::mpsc::Un
     let mut dropped = false;
     let mut ended = false;
     'outer: while let Some(op) = ops.recv().await {
+        let mut give_up: Option<tokio::time::Instant> = None;
         let (mut left, bsz) = match op {
             ROp::Read { n, buf } => (n as u64, buf),
             ROp::ReadToEnd { buf } => (u64::MAX, buf),
+            ROp::ReadToEndFor { buf, ms } => {
+                give_up = Some(tokio::time::Instant::now() + std::time::Duration::from_millis(ms as u64));
+                (u64::MAX, buf)
+            }
             ROp::Sleep(ms) => {
                 tokio::time::sleep(std::time::Duration::from_millis(ms as u64)).await;
                 continue;
@@ -279,7 +294,10 @@ pub async fn run_reader(mut r: UtpStreamReadHalf, mut ops: tokio::sync::mpsc::Un
         while left > 0 {
             let want = (left.min(buf.len() as u64)) as usize;
             let ts = now_us(t0);
-            let rr = tokio::select! { biased; _ = abort.notified() => { dropped = true; break 'outer; } x = r.read(&mut buf[..want]) => x };
+            let rr = tokio::select! { biased;
+                _ = abort.notified() => { dropped = true; break 'outer; }
+                _ = async { match give_up { Some(d) => tokio::time::sleep_until(d).await, None => std::future::pending().await } } => { continue 'outer; }
+                x = r.read(&mut buf[..want]) => x };
             match rr {
                 Ok(0) => {
                     log.lock().eof = true;
